@@ -83,6 +83,12 @@ def gen_case(rng, g, stream="random"):
             return Decimal(rng.randint(1, 999)) / Decimal(10 ** rng.choice((6, 8, 18))), "tiny"
         if k < 0.3:
             return Decimal(10 ** 12), "max"
+        if k < 0.33:
+            # more than 35 significant digits, just below a whole number of wei: `amount * 10**decimals` is ROUNDED by the context before
+            # int() truncates it (theorem C07_toWei_rounds_up_beyond35: to_wei(Decimal('0.' + '9'*37), 6) = 1000000)
+            whole = rng.choice((0, rng.randint(0, 10 ** 6)))
+            tail = "9" * rng.randint(30, 45) if rng.random() < 0.6 else "".join(rng.choice("0123456789") for _ in range(rng.randint(36, 45)))
+            return Decimal(f"{whole}.{tail}"), "long"
         e = rng.randint(-6, 12)
         m = Decimal(rng.randint(1, 10 ** rng.randint(1, 24)))
         v = (m / Decimal(10 ** (len(str(m)) - 1))) * (Decimal(10) ** e)
